@@ -114,6 +114,14 @@ def run(tier, seed):
         for sig, detail in judge(ref, t, res):
             case = {k: t[k] for k in ('op', 'base', 'local', 'remote', 'args', 'c09')}
             chk.violation(sig, case, dict(detail, triple=name, config=c04_cases.cfg_name(cfg)))
+    # every observed action must be one the translator found in the sources (Gen/Actions.v py_emitted)
+    emitted = c09_model.py_emitted()
+    observed = sorted(set(d.get('action') for res in results if 'decisions' in res for d in res['decisions'] if isinstance(d.get('action'), str)))
+    if emitted is None: chk.broken_obligation('translator:Gen/Actions.v', 'py_emitted not found')
+    else:
+        extra = [a for a in observed if a not in emitted]
+        if extra: chk.broken_obligation('correspondence:action-vocabulary', {'observed_but_not_in_py_emitted': extra, 'py_emitted': emitted})
+    mc['observed_actions'] = observed
     # the Coq validator on the implementation's decision lists
     t1 = 0; mism = 0
     try:
